@@ -414,11 +414,34 @@ func converge(r *core.Run, reconfigure bool) {
 	var tasks []*sched.Task
 	for k := range progs {
 		prog := progs[k]
-		tasks = append(tasks, e.w.Spawn(c.mut, fmt.Sprintf("mutator%d", k), func() {
+		proc := c.mut
+		if k > 0 {
+			proc = e.w.NewProc(fmt.Sprintf("admin%d", k), memfs.Cred{})
+		}
+		tasks = append(tasks, e.w.Spawn(proc, fmt.Sprintf("mutator%d", k), func() {
 			for _, op := range prog {
 				op.run()
 			}
 		}))
+	}
+	// sometimes one mutator lives in a process of its own that is killed at a
+	// drawn system call: whatever it was doing stays half done (a partial file,
+	// a temp file, a half removed tree)
+	if src.Bool(1, 5) && len(tasks) > 0 {
+		killAt := 1 + src.Intn(25)
+		victim := tasks[len(tasks)-1]
+		n := 0
+		e.w.Policy = func(t *sched.Task, op *sched.Op) sched.Decision {
+			if t != victim || !op.Sys {
+				return sched.Decision{}
+			}
+			n++
+			if n == killAt {
+				return sched.Decision{Kill: true}
+			}
+			return sched.Decision{}
+		}
+		r.Knob("mutator_killed_at_syscall", killAt)
 	}
 	// query tasks that only poll (their results are not judged, a crash or hang is)
 	nq := src.Intn(3)
@@ -464,9 +487,13 @@ func converge(r *core.Run, reconfigure bool) {
 	e.w.Quiesce()
 	r.CheckHealth("quiescence after the history")
 	truth := model.Observe(e.w.FS, c.dirs, e.reg, e.app.Cred)
-	if truth.HasUnknown() {
-		r.Discard = "a Spec-named file has content the generator does not know (harness limitation)"
-		return
+	// A mutator that was killed part-way leaves files whose content the
+	// generator does not know (a prefix of a Spec).  The model cannot classify
+	// those; the comparison with a freshly built cache (real code on the same
+	// disk) still applies in full.
+	unknown := truth.HasUnknown()
+	if unknown {
+		r.Probe("partial_file_left_by_killed_mutator")
 	}
 	var probe []string
 	for q := range truth.Defined() {
@@ -489,6 +516,10 @@ func converge(r *core.Run, reconfigure bool) {
 		r.Failf("not-converged", parts[0], "after the directory changes ceased and two rounds of queries, the auto-refreshed cache differs from a cache freshly built from the final directory contents: %s", parts[1])
 	}
 	// reference 2: the model
+	if unknown {
+		r.State(e.w.FS.Digest("/") + fmt.Sprint(got.Devices))
+		return
+	}
 	var v *View
 	e.do("queries-3", func() { v = Query(e.cache, probe) })
 	dk := map[string]bool{}
